@@ -240,7 +240,7 @@ func searchFunction(ctx *Context, fr *FuncResult, prop string, outDir string, it
 	var checks strings.Builder
 	nchecks := 0
 	for _, pf := range fr.fc.posts {
-		if propOfLabel(pf.label) != "" && propOfLabel(pf.label) != prop {
+		if !fr.fc.counts(pf.label, prop) {
 			continue
 		}
 		if len(pf.calls) > 0 {
